@@ -2,6 +2,7 @@ SPECIFICATION Spec
 INVARIANT KnownEvent
 INVARIANT Cl_Terminates
 INVARIANT Cl_TwinTerminates
+INVARIANT Cl_ModelTerminates
 INVARIANT Step_Seed
 INVARIANT Step_Iterate
 INVARIANT Step_LoopRule
